@@ -55,6 +55,58 @@ func c15Goid() int64 {
 	return id
 }
 
+// c15Quiescent reports whether every other goroutine of the process is
+// blocked (two consecutive scans).  Used only after a wait timed out, to tell a
+// deadlock from a slow machine.
+func c15Quiescent() bool {
+	buf := make([]byte, 1<<20)
+	for round := 0; round < 2; round++ {
+		n := runtime.Stack(buf, true)
+		first := true
+		for _, blk := range bytes.Split(buf[:n], []byte("\n\n")) {
+			if !bytes.HasPrefix(blk, []byte("goroutine ")) {
+				continue
+			}
+			if first { // the calling goroutine
+				first = false
+				continue
+			}
+			i := bytes.IndexByte(blk, '[')
+			if i < 0 {
+				continue
+			}
+			st := blk[i+1:]
+			if bytes.HasPrefix(st, []byte("running")) || bytes.HasPrefix(st, []byte("runnable")) || bytes.HasPrefix(st, []byte("syscall")) {
+				return false
+			}
+		}
+		runtime.Gosched()
+		time.Sleep(2 * time.Millisecond)
+	}
+	return true
+}
+
+// c15Wait waits for done; returns false only if the process is deadlocked
+// (nothing runnable) or 30 s have passed.
+func c15Wait(done <-chan struct{}) bool {
+	for k := 0; k < 20; k++ {
+		select {
+		case <-done:
+			return true
+		case <-time.After(1500 * time.Millisecond):
+		}
+		if c15Quiescent() {
+			select {
+			case <-done:
+				return true
+			default:
+				return false
+			}
+		}
+	}
+	return false
+}
+
 func c15Code(err error) int {
 	return int(status.Code(err))
 }
@@ -459,9 +511,7 @@ func c15ExecProg(in Sx) (Sx, bool) {
 	fin2 := make(chan struct{})
 	go func() { wg.Wait(); close(fin2) }()
 	timeout := 0
-	select {
-	case <-fin2:
-	case <-time.After(1500 * time.Millisecond):
+	if !c15Wait(fin2) {
 		timeout = 1
 	}
 	close(env.release)
@@ -770,7 +820,16 @@ drain:
 		default:
 		}
 		if time.Now().After(deadline) {
-			break
+			idle := false
+			for i := 0; i < n; i++ {
+				if cons[i].state.Load() == 0 {
+					idle = true
+				}
+			}
+			if !idle && c15Quiescent() {
+				break // every unfinished consumer is parked inside the library
+			}
+			deadline = time.Now().Add(1500 * time.Millisecond)
 		}
 	}
 	out := []Sx{AI(int(src.closes.Load())), AI(terminated)}
